@@ -117,4 +117,15 @@ var props = map[string]propCfg{
 		},
 		NotDecided: []string{"that Go's string-literal syntax un-escapes what the raw-string re-escaping produces, and that fmt.Sprintf substitutes %s / %% as assumed: properties of Go, stated as assumptions, not proved", "a raw newline inside \"...\" (Go rejects the emitted literal): read as outside the literal alphabet of the statement"},
 	},
+	"C03": {
+		Modules: []string{"fc"},
+		Decided: []string{
+			"naming: unionCSName = U_C, csConstructorName = New_U_C, piFullName = pkg.name unless the package is _",
+			"union: interface U with marker U_Union() (udUnionDef), struct U_C with payload field Value (udCSDef), constructor = package var when the case has no payload and U no type parameter, a func otherwise (csIsVar, csConstruct, csConstructVar, csConstructFunc)",
+			"record: struct with the same field names and mapped field types in order (rdfToGo, rdffieldToGo); tuples frt.NewTupleN(...) (tupleToGo)",
+			"top-level let: package func with name, type parameters, parameters in order and result type (rfdToGo, lfdParamsToGo, paramsToGo) or package var (rootVarDefToGo)",
+			"calls: the declared name with explicit type arguments if given (varRefToGo), all arguments in source order, a lone unit argument dropped (fcFullApplyGo, fcUnitArgOnly); external types registered under their qualified name (piRegEType)",
+		},
+		NotDecided: []string{"partial application (fcPartialApplyGo: supplied arguments first, then the closure parameters in order) is not under contract", "that the emitted text compiles together with hand-written client Go (needs the Go type checker)", "csRegisterCtor (references resolve to the var or func by the same rule) registers closures in dictionaries: not under contract", "a match on a generic union emits case U_C without type arguments (observation, a C01-level defect)"},
+	},
 }
